@@ -12,7 +12,9 @@ const FLOAT_TYPES: [&str; 2] = ["f32", "f64"];
 pub(crate) fn meta_2_expr(meta: &Meta) -> syn::Result<Expr> {
     match &meta {
         Meta::NameValue(name_value) => Ok(super::r#type::ungroup_expr(&name_value.value).clone()),
-        Meta::List(list) => list.parse_args::<Expr>(),
+        Meta::List(list) => {
+            list.parse_args::<Expr>().map(|expr| super::r#type::ungroup_expr(&expr).clone())
+        },
         Meta::Path(path) => Err(syn::Error::new(
             path.span(),
             format!("expected `{path} = Expr` or `{path}(Expr)`", path = path_to_string(path)),
